@@ -314,7 +314,24 @@ func genItem(r *rng, sz int, cname bool) rtcp.SourceDescriptionItem {
 			n = 3
 		}
 	}
+	if sz == szTypical && !r.chance(3) {
+		// Texts of a real session come from a small vocabulary of equal-length strings (a stack generates all its
+		// CNAMEs the same way): values recur and near-collide across the packets of one run, which is what
+		// exercises tables keyed by a text or by its digest.
+		return rtcp.SourceDescriptionItem{Type: t, Text: vocabText(16-8*(r.intn(4)/3), r.intn(vocabWords))}
+	}
 	return rtcp.SourceDescriptionItem{Type: t, Text: r.text(n)}
+}
+
+const vocabWords = 40
+
+// vocabText returns word i of the fixed vocabulary of n-octet texts (n >= 2): the words differ in their last two octets.
+func vocabText(n, i int) string {
+	const stem = "k7Qe2xLmP0vTz9Rb"
+	b := []byte(stem[:n])
+	b[n-2] = byte('A' + i/8)
+	b[n-1] = byte('a' + i%8*3)
+	return string(b)
 }
 
 func genChunk(r *rng, sz int, cname bool) rtcp.SourceDescriptionChunk {
